@@ -14,6 +14,7 @@ structure St where
   up : UpSt := {}
   watch : WatchSt := {}
   fan : FanSt := {}
+  led : LedSt := {}
 
 /-- note-name engine (C11) -/
 def noteLine (toks : List String) : Option String :=
@@ -32,13 +33,16 @@ def St.line (s : St) (line : String) : St × Option String :=
   let toks := (line.splitOn " ").filter (· ≠ "")
   match toks with
   | [] => (s, none)
-  | "case" :: _ => (s, some line)
+  | "case" :: _ => ({ s with led := {} }, some line)
   | t :: _ =>
     if t.startsWith "#" then (s, none)
     else if t = "s2n" ∨ t = "n2s" then (s, noteLine toks)
     else if t.startsWith "tpl." ∨ t.startsWith "fs." ∨ t = "upkeep" ∨ t = "crashstates" then
       let (p, o) := s.up.line toks
       ({ s with up := p }, o)
+    else if t.startsWith "led." ∨ s.led.active then
+      let (p, o) := s.led.line toks
+      ({ s with led := p }, o)
     else if t.startsWith "fan." then
       let (p, o) := s.fan.line toks
       ({ s with fan := p }, o)
